@@ -108,7 +108,8 @@ def run(job):
             except BaseException as e:
                 signal.setitimer(signal.ITIMER_REAL, 0)
                 res["calls"].append({"fail": classify_exc(e)})
-                break
+                if not job.get("continue_after_failure"):
+                    break
     return res
 
 if __name__ == "__main__":
